@@ -25,16 +25,6 @@ def Excl_oneCellScalar (t : Dense) (sls : List (Option Sl)) : Bool :=
 /-- F24 (C16): column-major vectors / scalar-equivalent shapes carry fewer strides than axes. -/
 def Excl_shortStrides (t : Dense) : Bool := t.ap.strides.length < t.ap.shape.length
 
-/-- F4 (C03): a second lazy transpose whose resulting shape equals the shape before the pending
-    transpose is taken for its undo, whatever the axes. -/
-def Excl_shapeUndo (t : Dense) (axes : List Int) : Bool :=
-  match t.old, t.tw, t.ap.T axes with
-  | some o, some tw, .ok (.ok tr ax) =>
-    !isVector t.ap.shape && tr.shape == o.shape &&
-      -- a genuine undo composes with the pending axes to the identity
-      !((List.range ax.length).all (fun i => (ax[i]?.bind (fun a => getI? tw a)) == some (Int.ofNat i)))
-  | _, _, _ => false
-
 /-- F5 (C03/C04): physically transposing a view gathers into the first `size` cells of its window. -/
 def Excl_transposeView (t : Dense) : Bool :=
   t.view && t.old.isSome && !isVector t.ap.shape && !isScalar t.ap.shape
@@ -44,10 +34,46 @@ def Excl_transposeView (t : Dense) : Bool :=
 def Excl_transposeCol (t : Dense) : Bool :=
   t.ap.o.col && t.old.isSome && !isVector t.ap.shape && !isScalar t.ap.shape
 
+/-- F27 (C04/C16): a view whose strides are not the default ones of its shape but which is flagged
+    contiguous and has no pending transpose (e.g. `tᵀ[:]`, `tᵀ[0:2]`): `RequiresIterator` is false,
+    so Materialize / Copy / arithmetic read its raw storage. -/
+def Excl_contigFlagWrong (v : Dense) : Bool :=
+  v.view && !v.ap.o.nonContig && v.old.isNone && v.win.len != 1 && !isScalar v.ap.shape &&
+    v.ap.strides != Dense.defaultStrides v.ap.o.col v.ap.shape
+
+/-- F28 (C03): `AP.T` gives a two-dimensional vector the strides (1,1) whatever its own strides were:
+    transposing a vector view with a non-unit stride reads the wrong cells. -/
+def Excl_vectorT (t : Dense) (axes : List Int) : Bool :=
+  match t.ap.shape, t.ap.strides with
+  | [a, b], [s0, s1] =>
+    isVector t.ap.shape && (axes.isEmpty || axes.head? != some 0) &&
+      ((a > 1 && s0 != 1) || (b > 1 && s1 != 1))
+  | _, _ => false
+
+/-- F3 (C13): `Shape.S` never rounds a stepped length up (`AP.S` does, on every axis but the first). -/
+def Excl_shapeSFloor (shape : Shape) (sls : List (Option Sl)) : Bool :=
+  (List.zip shape (sls ++ List.replicate shape.length none)).any (fun (d, sl) =>
+    match sl with
+    | some s =>
+      let e := if s.stop > d then d else s.stop
+      decide (s.step > 1) && decide (0 ≤ s.start) && decide (s.start < e) && (e - s.start) % s.step != 0
+    | none => false)
+
+/-- F16 (C13): a tensor that is not a view but whose storage window is longer than its size (a clone
+    of a non-contiguous view) passes Reshape's guards, has its strides overwritten and then fails
+    the sanity check: an error is returned and the tensor is left corrupted. -/
+def Excl_reshapeLongWindow (t : Dense) : Bool :=
+  !t.view && (t.win.len : Int) != totalSize t.ap.shape
+
 /-- does `T axes` on `t` run the physical transpose first? (pending, not vector, not "reversed") -/
 def T_materialises (t : Dense) (axes : List Int) : Bool :=
   match t.old, t.ap.T axes with
-  | some o, .ok (.ok tr _) => !isVector t.ap.shape && tr.shape != o.shape
+  | some _, .ok (.ok _ ax) =>
+    let tw := t.tw.getD []
+    !isVector t.ap.shape &&
+      !(ax.length == tw.length && (List.range ax.length).all (fun i => match ax[i]? with
+          | some a => decide (0 ≤ a) && getI? tw a == some (Int.ofNat i)
+          | none => false))
   | _, _ => false
 
 end TM
